@@ -1017,11 +1017,6 @@ func (w *Writer) needsParensInContext(handle ir.ExpressionHandle) bool {
 	if _, ok := w.namedExpressions[handle]; ok {
 		return false
 	}
-	if w.currentFunction.NamedExpressions != nil {
-		if _, ok := w.currentFunction.NamedExpressions[handle]; ok {
-			return false
-		}
-	}
 	expr := w.currentFunction.Expressions[handle]
 	switch expr.Kind.(type) {
 	case ir.ExprBinary:
